@@ -35,16 +35,26 @@ theorem exec_tagView (v : Variant) (s : St) (t : Nat) (i : Instr) (rest : List I
         (s.cmdTag + 1, fun d => if d = c then (s.cmdTag + 1, true) else ((s.cmd d).ltag, (s.cmd d).registered)) := by
   cases i
   case register c =>
-    by_cases hr : (s.cmd c).registered = true
-    · left; simp [exec, hr]
+    by_cases hg : (!s.holds t || (s.cmd c).registered) = true
+    · left; simp only [exec, hg, if_true]
     · right
-      refine ⟨c, rfl, by simpa using hr, ?_⟩
-      simp only [exec, hr]
+      have hr : (s.cmd c).registered = false := by
+        simp only [Bool.or_eq_true, not_or, Bool.not_eq_true] at hg; exact hg.2
+      refine ⟨c, rfl, hr, ?_⟩
+      simp only [exec, hg]
       unfold tagView
       simp only [Bool.false_eq_true, if_false, setProg_cmdTag, setProg_cmd, updCmd_cmdTag, updCmd_cmd]
       congr 1
       funext d
       by_cases hd : d = c <;> simp [hd]
+  case cancelConts c r =>
+    left
+    simp only [exec]
+    unfold tagView
+    simp only [setProg_cmd, setProg_cmdTag, updCmd_cmd, updCmd_cmdTag, foldl_setCont2_cmd, foldl_setCont2_cmdTag]
+    congr 1
+    funext d
+    split <;> rfl
   case srv a =>
     left; simp only [exec]; split
     · rfl
@@ -56,7 +66,7 @@ theorem exec_tagView (v : Variant) (s : St) (t : Nat) (i : Instr) (rest : List I
     all_goals
       first
         | rfl
-        | (simp only [tagView_setProg, tagView_foldl, tagView_foldl2]; first | done | rfl)
+        | (simp only [tagView_setProg, tagView_foldl]; first | done | rfl)
         | (unfold tagView
            dsimp only [St.setProg, St.updCmd, St.closeConn, St.setCont]
            congr 1
@@ -78,13 +88,17 @@ theorem step_tagView (v : Variant) (s : St) (t : Nat) :
   split
   · left; rfl
   · split
-    · left; exact skipCaps_tagView s _
+    · split
+      · left; exact skipCaps_tagView s _
+      · left; rfl
     · split
       · left; rfl
-      · rename_i i rest _
-        rcases exec_tagView v s t i rest with h | ⟨c, _, h1, h2⟩
-        · left; exact h
-        · right; exact ⟨c, h1, h2⟩
+      · split
+        · left; rfl
+        · rename_i i rest _
+          rcases exec_tagView v s t i rest with h | ⟨c, _, h1, h2⟩
+          · left; exact h
+          · right; exact ⟨c, h1, h2⟩
 
 /-- allocated tags are at most the counter, registered commands have a tag ≥ 1, and two registered
     commands with the same tag are the same command -/
